@@ -183,6 +183,7 @@ def run_C18(ctx, R):
     from .rules import tab, lst, utilsx
     _per_config(ctx, R, lambda units, r: utilsx.inputs_only_relinked(units, r, roots=('generate_merge_patch', 'compare_json')))
     _per_config(ctx, R, _own_utils({'merge_patch', 'generate_merge_patch'}))
+    _per_config(ctx, R, utilsx.mrg)
     _scoped(ctx, R, tab.tab20, C18_ENTRIES, 0)
     _scoped(ctx, R, tab.tab11, C18_ENTRIES, 15)
     _scoped(ctx, R, lst.lst1, C18_ENTRIES, 3)
